@@ -1,8 +1,8 @@
 package main
 
 import (
-	"golang.org/x/tools/go/ssa"
 	"go/types"
+	"golang.org/x/tools/go/ssa"
 	"strings"
 )
 
@@ -32,7 +32,7 @@ func init() {
 	register("C10", PropertyMeta{
 		Technique: "decision-table extraction of the forwarding loop body + effect-sequence pairing (peek, capacity test, deliver, retrieve) on value-numbered receivers",
 		Explanation: "Decides on noc/directconnection/comp.go: in forwardMany, a message is delivered only where the destination port's CanDeliver holds, the delivered value is exactly the head peeked from the source port, the destination port is the one looked up from that head's Meta().Dst (capacity test and delivery on the same port), and each delivery is followed by exactly one RetrieveOutgoing on the source port; an empty source or a full destination stops the loop without delivering or retrieving; " +
-			"ports are registered under their own name; the round-robin cursor is advanced modulo the port count and written nowhere else.",
+			"ports are registered under their own name; the round-robin cursor is advanced modulo the port count and written nowhere else. (port-notifications) the ports' full→not-full and empty→non-empty notification tables (as in C11), on which a back-pressured idle connection depends to be resumed.",
 		NotDecided:  "fairness and eventual delivery under arbitrary back-pressure (with C09/C11 for wake-ups).",
 		Assumptions: []string{"PeekOutgoing/Meta/CanDeliver are state-reading"},
 	}, runC10)
@@ -285,7 +285,9 @@ func runC13(c *Ctx) {
 		t := ExtractTable(p, f, TableConfig{Inline: func(g *types.Func) bool { return g == swn }})
 		ok := len(t.Rows) > 0 && len(t.Unsupported) == 0
 		for _, r := range t.Rows {
-			w := r.Calls(func(e *Effect) bool { return e.Kind == "call" && e.Callee != nil && e.Callee.Name() == "ScheduleWakeAt" })
+			w := r.Calls(func(e *Effect) bool {
+				return e.Kind == "call" && e.Callee != nil && e.Callee.Name() == "ScheduleWakeAt"
+			})
 			if len(w) != 1 || len(w[0].Args) != 1 || !strings.HasSuffix(w[0].Args[0], "engine.CurrentTime()") {
 				ok = false
 			}
@@ -439,6 +441,10 @@ func directTickProgress(c *Ctx, rule string) {
 }
 
 func runC10(c *Ctx) {
+	// a back-pressured connection goes idle and is resumed only by the
+	// receiving port's NotifyAvailable (and by NotifySend for new traffic): the
+	// ports' notification tables are part of "backpressure delays, never drops"
+	portNotificationTables(c, "port-notifications")
 	p := c.P
 	progressHonestRule(c, "progress-honest", func(pp string) bool { return pp == pkgPath("noc/directconnection") }, 1)
 	dom := []int{0, 1, 2}
@@ -452,7 +458,9 @@ func runC10(c *Ctx) {
 		}
 		CheckTable(c, "forward-table", "noc/directconnection.middleware.forwardMany", p.Decl(f).Pos(), t, roles, dom, nil, func(v RoleVals, r *Row) (bool, string) {
 			del := r.Calls(func(e *Effect) bool { return e.Kind == "call" && e.Callee != nil && e.Callee.Name() == "Deliver" })
-			ret := r.Calls(func(e *Effect) bool { return e.Kind == "call" && e.Callee != nil && e.Callee.Name() == "RetrieveOutgoing" })
+			ret := r.Calls(func(e *Effect) bool {
+				return e.Kind == "call" && e.Callee != nil && e.Callee.Name() == "RetrieveOutgoing"
+			})
 			if v.B("empty") || !v.B("can") {
 				if len(del)+len(ret) != 0 {
 					return false, "with an empty source or a full destination nothing may be delivered or removed (back-pressure must delay, not drop or duplicate)"
@@ -497,7 +505,9 @@ func runC10(c *Ctx) {
 		t := ExtractTable(p, f, TableConfig{})
 		ok, why := len(t.Rows) > 0 && len(t.Unsupported) == 0, "outside the analysable fragment"
 		for _, r := range t.Rows {
-			app := r.Stores(func(e *Effect) bool { return e.RecvHas(portsF) && len(e.Recv) > 0 && sameObj(e.Recv[len(e.Recv)-1].Obj, portsF) })
+			app := r.Stores(func(e *Effect) bool {
+				return e.RecvHas(portsF) && len(e.Recv) > 0 && sameObj(e.Recv[len(e.Recv)-1].Obj, portsF)
+			})
 			idx := r.Stores(func(e *Effect) bool { return e.RecvHas(mapF) })
 			if len(app) != 1 || len(idx) != 1 || app[0].Gen > idx[0].Gen {
 				ok, why = false, "addPort must append the port and then index it"
